@@ -104,6 +104,8 @@ SEED_FENS = {
  'promo_all': 'r1n1k3/1P6/8/8/8/8/4p1p1/4K2R w K - 0 1',
  'promo_b': '4k3/8/8/8/8/8/1pp3p1/R1N1K2N b - - 0 1',
  'promo_check': '7k/5P2/8/8/8/8/8/K7 w - - 0 1',
+ # a promoting pawn captures a rook on its home corner while that side still holds the castling right (round-6 seed C02-4)
+ 'promo_x_corner_rook': 'r3k2r/1P4P1/8/8/8/8/1p4p1/R3K2R w KQkq - 0 1', 'promo_x_corner_rook_b': 'r3k2r/1P4P1/8/8/8/8/1p4p1/R3K2R b KQkq - 0 1',
  # checks, double check, mates, stalemate
  'double_check': '4k3/8/8/8/8/2b5/3r4/4K3 w - - 0 1',
  'double_check2': 'r3k3/8/8/8/8/8/3n4/R3K2b w Q - 0 1',
